@@ -7,7 +7,8 @@ Open Scope Z_scope.
 
 (* a lock qualifies for a ByDuration gauge: same denomination, duration at least the gauge's (unlocking locks
    keep qualifying until they are withdrawn) *)
-Definition qualifies (g : gauge) (l : lock) : bool := (l_denom l =? g_denom g) && (g_dur g <=? l_dur l).
+Definition qualifies (g : gauge) (l : lock) : bool :=
+  (g_pool g =? 0) && (l_denom l =? g_denom g) && (g_dur g <=? l_dur l).     (* NoLock gauges pay no lock *)
 Definition qualifying (tbl : list lock) (g : gauge) : list lock := filter (qualifies g) tbl.
 
 (* gauges that distribute at an epoch end at time [s_now s]: the active ones and the upcoming ones whose start time has come *)
